@@ -174,6 +174,9 @@ func findCounterexample(p *Program, o *Obl) ceResult {
 			} else {
 				supported = false
 			}
+		case VIface:
+			// an interface parameter (e.g. the writer of a formatting function): not probed; a
+			// replay template that needs it cannot be filled and the replay is then not attempted
 		default:
 			supported = false
 		}
@@ -210,6 +213,16 @@ func findCounterexample(p *Program, o *Obl) ceResult {
 	}
 	b.WriteString("(assert " + o.Guard.String() + ")\n")
 	goal := o.Goal
+	if goal.Op == "forall" && len(goal.Args) == 1 && !hasQuant(goal.Args[0]) {
+		// a universally quantified goal: look for a violating instance (fresh constants)
+		sub := map[string]*Term{}
+		for _, q := range goal.Q {
+			c := "ce!" + q.Name
+			fmt.Fprintf(&b, "(declare-const %s %s)\n", quoteSym(c), q.S)
+			sub[q.Name] = Var(c, q.S)
+		}
+		goal = goal.Args[0].Subst(sub)
+	}
 	if hasQuant(goal) {
 		res.report["counterexample"] = "not attempted: quantified goal"
 		return res
